@@ -8,19 +8,19 @@ import (
 
 // Scenario is the replayable input of one end-to-end run.
 type Scenario struct {
-	Seed    uint64       `json:"seed"`
-	Mode    string       `json:"mode"` // exact: control operations never overlap a write; racy: they run concurrently
-	TLS     bool         `json:"tls"`  // rtsps + SRTP
-	Cap     int          `json:"cap"`  // Server.WriteQueueSize
-	MaxPkt  int          `json:"max_pkt,omitempty"`
-	Medias  [][]int      `json:"medias"` // payload types of every media
-	N       int          `json:"n"`
-	ArbSeq  bool         `json:"arb_seq,omitempty"` // arbitrary sequence numbers (reliable transports only)
-	Pace    int          `json:"pace,omitempty"`    // yield 50µs every Pace writes
-	Relay   string       `json:"relay,omitempty"`   // "", "tcp", "udp": publisher → server session → stream
-	Readers []ReaderSpec `json:"readers"`
-	NoModel bool         `json:"no_model,omitempty"` // property oracle only (very long runs)
-	SizeSweep bool       `json:"size_sweep,omitempty"` // write number i has i+1 payload bytes
+	Seed      uint64       `json:"seed"`
+	Mode      string       `json:"mode"` // exact: control operations never overlap a write; racy: they run concurrently
+	TLS       bool         `json:"tls"`  // rtsps + SRTP
+	Cap       int          `json:"cap"`  // Server.WriteQueueSize
+	MaxPkt    int          `json:"max_pkt,omitempty"`
+	Medias    [][]int      `json:"medias"` // payload types of every media
+	N         int          `json:"n"`
+	ArbSeq    bool         `json:"arb_seq,omitempty"` // arbitrary sequence numbers (reliable transports only)
+	Pace      int          `json:"pace,omitempty"`    // yield 50µs every Pace writes
+	Relay     string       `json:"relay,omitempty"`   // "", "tcp", "udp": publisher → server session → stream
+	Readers   []ReaderSpec `json:"readers"`
+	NoModel   bool         `json:"no_model,omitempty"`   // property oracle only (very long runs)
+	SizeSweep bool         `json:"size_sweep,omitempty"` // write number i has i+1 payload bytes
 }
 
 type ReaderSpec struct {
